@@ -159,6 +159,8 @@ def basic_markets(r: random.Random, w: World, n: int, shares: bool = False, vola
     for i in range(n):
         tick = r.choice(TICKS) if r.random() < 0.5 else 1.0
         p0 = float(round(r.choice([100, 300, 50, 1000]) / tick) * tick) if tick >= 0.01 else 300.0
+        if r.random() < 0.1 and tick == int(tick) and p0 == int(p0):
+            tick, p0 = int(tick), int(p0)  # JSON integers instead of floats
         vol = r.choice([0.0, 0.001, 0.01]) if r.random() < volatile else 0.0
         w.add_market(f"M{i}", tick, p0, vol=vol, drift=r.choice([0.0, 0.0, 0.001, -0.001]) if vol or r.random() < 0.2 else 0.0,
                      shares=r.choice([100, 250, 1000, 7]) if shares else None,
@@ -315,7 +317,7 @@ def gen_world(r: random.Random, profile: str) -> Dict[str, Any]:
         else:
             del w.cfg[w.cfg[idx["name"]]["markets"][-1]]["outstandingShares"]
             w.extra = {"expect_setup_error": {"kind": "component_without_shares", "types": ["AssertionError", "ValueError"], "property": "C17"}}
-    if P == "ledger" and r.random() < 0.2:
+    if (P == "ledger" and r.random() < 0.2) or (P in ("callbacks", "hooks", "index") and r.random() < 0.06):
         w.nolog = True  # a runner without a logger
     p_empty = 0.5 if P == "sessions" else r.choice([0.2, 0.4, 0.6])
     fill_scripts(r, w, p_empty=p_empty, p_cancel=r.choice([0.1, 0.2, 0.3]),
@@ -357,6 +359,22 @@ def events_for(r: random.Random, w: World, P: str) -> None:
             s.setdefault("events", []).append(name)
     if P == "hooks":
         gen_probes(r, w)
+    if P == "index" and r.random() < 0.15:
+        comps = sorted({c for m in w.markets if m["index"] for c in m["components"]})
+        if comps:
+            # a user-written share issuance on a component, at the end of some step
+            w.probes["ISS"] = {"hooks": [{"kind": "market", "before": False, "times": None}],
+                               "issue": {"market": r.choice(comps), "add": r.choice([1, 50, 1000, 7000]),
+                                         "at": r.randrange(0, max(1, w.total_steps()))}}
+            w.cfg["ISS"] = {"class": "ProbeEvent"}
+            w.sessions[0].setdefault("events", []).append("ISS")
+    if P in ("callbacks", "ledger") and r.random() < 0.08:
+        # a user-written circuit breaker: switches matching off from inside an after-fill hook
+        w.probes["BRK"] = {"hooks": [{"kind": "execution", "before": False, "times": None},
+                                     {"kind": "market", "before": True, "times": None}],
+                           "breaker": {"after": r.randint(1, 3), "restore": r.random() < 0.5}}
+        w.cfg["BRK"] = {"class": "ProbeEvent"}
+        r.choice(w.sessions).setdefault("events", []).append("BRK")
     if len(w.sessions) >= 2 and r.random() < 0.2:
         # the same event entry listed in two sessions (two instances of one configuration)
         src = [s_ for s_ in w.sessions if s_.get("events")]
@@ -415,6 +433,8 @@ def gen_probes(r: random.Random, w: World) -> None:
         spec = {"hooks": hooks}
         if r.random() < 0.25:
             spec["alter"] = r.choice([{"f": 1.01}, {"f": 0.97}, {"d": 0.3}, {"f": 1.0}])
+        if r.random() < 0.12 and any(h["kind"] == "execution" for h in hooks):
+            spec["breaker"] = {"after": r.randint(1, 3), "restore": r.random() < 0.5}
         w.probes[name] = spec
         w.cfg[name] = {"class": "ProbeEvent"}
         si = r.randrange(len(w.sessions))
@@ -466,6 +486,8 @@ def gen_rules(r: random.Random, profile: str) -> Dict[str, Any]:
                                "orderVolume": r.randint(1, 50), "orderTimeLength": r.randint(1, 6),
                                "enabled": r.random() < 0.85}
             s.setdefault("events", []).append(name)
+        if r.random() < 0.06:
+            w.nolog = True
         # shocks landing on the last step of a generation chunk / storage chunk need small chunks in short runs
         w.knobs["generation_chunk"] = r.choice([None, 2, 3, 4, 5, 7])
         w.knobs["storage_chunk"] = r.choice([None, None, 3, 5])
@@ -499,6 +521,8 @@ def gen_rules(r: random.Random, profile: str) -> Dict[str, Any]:
         steps = w.total_steps()
         facs = [1 + rate, 1 - rate, 1 + rate * (1 + 1e-6), 1 - rate * (1 + 1e-6), 1 + rate * (1 - 1e-6), 1 - rate * (1 - 1e-6),
                 1 + 2 * rate, 1 - 2 * rate, 1 + rate / 2, 1 - rate / 2, 1.0, 0.3, 3.0, 1 + rate * 1.01, 1 - rate * 0.99]
+        if r.random() < 0.5:
+            facs += [0.0, -0.0, -0.2]  # a price of exactly zero / a negative price: accepted with a warning only
         for a in w.scripted:
             turns = []
             for _ in range(steps * (2 if a["hft"] else 1) + 2):
@@ -596,7 +620,7 @@ def gen_agents(r: random.Random, profile: str = "agents") -> Dict[str, Any]:
     w = World(r)
     with_index = r.random() < 0.6
     if with_index:
-        n = r.randint(2, 3)
+        n = r.randint(2, 4)
         sh = r.choice([100, 1000])
         for i in range(n):
             p0 = float(r.choice([100, 300, 400]))
@@ -610,6 +634,11 @@ def gen_agents(r: random.Random, profile: str = "agents") -> Dict[str, Any]:
         avg = sum(w.cfg[c]["marketPrice"] for c in comps) / n
         gap = r.choice([0.0, 0.5, 0.99, 1.0, 1.01, 3.0, -0.99, -1.0, -1.01, -4.0])
         w.add_index("IDX", r.choice([1.0, 0.01]), avg + gap, comps)
+        if n >= 3 and r.random() < 0.35:
+            # a second index over fewer of the same components: an arbitrage agent that sees both
+            sub = r.sample(comps, 2)
+            avg2 = sum(w.cfg[c]["marketPrice"] for c in sub) / 2
+            w.add_index("IDX2", r.choice([1.0, 0.01]), avg2 + r.choice([0.0, 1.01, 3.0, -1.01, -4.0]), sub)
     else:
         for i in range(r.randint(1, 3)):
             p0 = float(r.choice([100, 300, 1000]))
